@@ -74,8 +74,12 @@ def ledger_check(ctx, pid, cfg, selftest_mutator, what):
     # ... debonding intervals 0 (an entry is due at the very next transition) and 2, tiny stakes (slashes larger than the escrow)
     l4, s4 = run_scenarios(ctx, [x + 700 for x in seeds[:max(2, len(seeds) // 3)]], blocks, extra=["-debond", "0"])
     l5, s5 = run_scenarios(ctx, [x + 800 for x in seeds[:max(2, len(seeds) // 3)]], blocks, extra=["-debond", "2", "-tinystake", "-validators", "5"])
-    lines += l2 + l3 + l4 + l5
-    sums += s2 + s3 + s4 + s5
+    # ... and with the vault application in use: vaults, actions authorized by their authorities, deposits, withdrawals through the
+    # staking account hook (within / above the policy's quota, above the vault's balance, from suspended vaults)
+    l6, s6 = run_scenarios(ctx, [x + 900 for x in seeds[:max(3, len(seeds) // 3)]], blocks, extra=["-vault"])
+    lines += l2 + l3 + l4 + l5 + l6
+    sums += s2 + s3 + s4 + s5 + s6
+    ctx.vault_lines = l6
     t = totals(sums)
     ctx.log("scenarios: %d seeds (%d on the VRF beacon), %d blocks, %d events" % (len(sums), len(s2), t["blocks"], t["events"]))
     rej, nv, nev = validate(ctx, lines, "TraceLedger", cfg)
@@ -188,3 +192,104 @@ def governance_check(ctx, lines):
                 raise vlib.Infra("governance self-test %s: forged record %s" % (name, "accepted" if not why else "rejected by " + why))
             tests[name] = why[-110:]
     ctx.coverage.update(governance=st, governance_traces_valid=nv, governance_deviations=dev, governance_selftests=tests)
+
+
+def vault_check(ctx, lines, pid):
+    """TraceVault.tla on the scenarios that use the vault application.  The model of the vault application (VaultOps.tla) is stepped
+    along the recorded transactions; the recorded vault state after every transaction and at the end of every block must be the
+    model's.  A failed transaction that changed the vault state is a clause of C08 and is reported under it (when pid is C08);
+    the other clauses (V1-V3, V5) describe behaviour outside the listed properties: a deviation is printed as SPEC-DEVIATION and
+    kept in the evidence notes, it does not change the exit code."""
+    rej, nv, nev = validate(ctx, lines, "TraceVault", "tracevault.cfg")
+    dev = 0
+    for seg in rej:
+        if "V4/C08" in seg["why"] and pid == "C08":
+            vlib.report(ctx, "C08: %s at %s" % (seg["why"], seg["failing_event"][:400]),
+                        {"seed_event": seg["events"][0], "failing_index": seg["failing_index_in_segment"], "events_tail": seg["events"][-3:]},
+                        {"kind": "vault-failed-tx"})
+        else:
+            dev += 1
+            line = "SPEC-DEVIATION vault (outside the listed properties) %s: %s at %s" % (
+                json.dumps(seg["events"][0])[:160], seg["why"], seg["failing_event"][:300])
+            if dev <= 3:
+                print(line)
+                ctx.notes.append(line[:600])
+    # what the scenarios exercised (vacuity guard)
+    st = {"vaults": 0, "actions_executed": 0, "authorizations_pending": 0, "cancelled": 0, "withdrawn": 0, "withdraw_forbidden": 0,
+          "withdraw_authorized_but_failed": 0, "refused_by_vault": 0, "suspended_blocks": 0}
+    seg, samples = [], {}
+    for ln in lines:
+        if '"ev":"begin_chain"' in ln:
+            seg = []
+        seg.append(ln)
+        if '"ev":"tx"' in ln and '"vault":' in ln:
+            e = json.loads(ln)
+            sp, ok = e["spec"], e["code"] == 0
+            k = sp.get("kind")
+            if k == "vcreate" and ok:
+                st["vaults"] += 1
+            elif k == "vauth" and ok:
+                pend = any(p for v in e["vault"] if v["id"] == sp.get("to") for p in v["pending"])
+                st["authorizations_pending" if pend else "actions_executed"] += 1
+                if not pend and "exec" not in samples:
+                    samples["exec"] = list(seg)
+            elif k == "vcancel" and ok:
+                st["cancelled"] += 1
+            elif k in ("vauth", "vcancel", "vcreate") and e.get("module") == "vault":
+                st["refused_by_vault"] += 1
+                if k == "vauth" and e["code"] == 5 and "forbidden" not in samples:
+                    samples["forbidden"] = list(seg)
+            elif k == "withdraw" and str(sp.get("to", "")).startswith("V"):
+                if ok and sp["amount"] > 0:
+                    st["withdrawn"] += 1
+                    if "withdrawn" not in samples:
+                        samples["withdrawn"] = list(seg)
+                elif e.get("module") == "staking" and e["code"] == 5:
+                    st["withdraw_forbidden"] += 1
+                    if "wforbidden" not in samples:
+                        samples["wforbidden"] = list(seg)
+                elif e.get("module") == "staking" and e["code"] in (3, 4):
+                    st["withdraw_authorized_but_failed"] += 1
+        elif '"ev":"end"' in ln and '"vault":' in ln and '"active":false' in ln:
+            st["suspended_blocks"] += 1
+    ctx.log("vault: %d valid, %d rejected (%d outside the listed properties); %s" % (nv, len(rej), dev, st))
+    if st["vaults"] < 2 or st["actions_executed"] < 5 or st["withdrawn"] < 3 or st["withdraw_forbidden"] < 3 or st["authorizations_pending"] < 1:
+        if not hasattr(ctx, "deferred_infra"):
+            ctx.deferred_infra = []
+        ctx.deferred_infra.append("vacuous vault run: %s" % st)
+    # self-tests: each forged record must be rejected at its clause
+    tests = {}
+
+    def forge(name, key, fn, want):
+        if key not in samples:
+            return
+        evs = [json.loads(x) for x in samples[key]]
+        fn(evs[-1])
+        r, _, _ = validate(ctx, [json.dumps(e) + "\n" for e in evs], "TraceVault", "tracevault.cfg")
+        why = r[0]["why"] if r else None
+        if not why or want not in why:
+            raise vlib.Infra("vault self-test %s: forged record %s" % (name, "accepted" if not why else "rejected by " + why))
+        tests[name] = why[-120:]
+
+    def f_nonce(e):
+        [v for v in e["vault"] if v["id"] == e["spec"]["to"]][0]["nonce"] += 1
+
+    def f_code(e):
+        e["code"] = 0
+
+    def f_amount(e):
+        for v in e["vault"]:
+            if v["id"] == e["spec"]["to"]:
+                for s_ in v["states"]:
+                    if s_["addr"] == e["spec"]["signer"]:
+                        s_["amount"] -= 1
+
+    def f_failed(e):
+        e["code"], e["module"] = 3, "staking"
+
+    forge("executed_action_nonce", "exec", f_nonce, "V2-V4")
+    forge("unauthorized_accepted", "forbidden", f_code, "V2:")
+    forge("quota_accounting", "withdrawn", f_amount, "V2-V4")
+    forge("over_quota_accepted", "wforbidden", f_code, "V3:")
+    forge("failed_tx_changed_state", "withdrawn", f_failed, "V4/C08")
+    ctx.coverage.update(vault=st, vault_traces_valid=nv, vault_deviations=dev, vault_selftests=tests)
